@@ -35,6 +35,7 @@ type plug struct {
 	name   string
 	noresp bool
 	check  bool
+	maxAtt int // >0: the plugin's RetryPolicy declares MaxAttempts (the action's Retries still bound the invocations)
 	s      *sched
 }
 
@@ -57,7 +58,7 @@ func (p *plug) Response() any {
 }
 func (p *plug) IsCheck() bool { return p.check }
 func (p *plug) RetryPolicy() exponential.Policy {
-	return exponential.Policy{InitialInterval: time.Millisecond, Multiplier: 1.1, RandomizationFactor: 0, MaxInterval: 2 * time.Millisecond}
+	return exponential.Policy{InitialInterval: time.Millisecond, Multiplier: 1.1, RandomizationFactor: 0, MaxInterval: 2 * time.Millisecond, MaxAttempts: p.maxAtt}
 }
 func (p *plug) Init() error { return nil }
 
